@@ -374,9 +374,9 @@ class nx_flow_mod (of.ofp_flow_mod, of.ofp_vendor_base):
       assert self.buffer_id is None
       self.buffer_id = self.data.buffer_id
       if self.buffer_id is None:
-        po = ofp_packet_out(data=self.data)
+        po = of.ofp_packet_out(data=self.data)
         po.in_port = self.data.in_port
-        po.actions.append(ofp_action_output(port = OFPP_TABLE))
+        po.actions.append(of.ofp_action_output(port = of.OFPP_TABLE))
         # Should maybe check that packet hits the new entry...
         # Or just duplicate the actions? (I think that's the best idea)
 
@@ -400,11 +400,11 @@ class nx_flow_mod (of.ofp_flow_mod, of.ofp_vendor_base):
     for i in self.actions:
       packed += i.pack()
 
-    if po:
-      packed += ofp_barrier_request().pack()
-      packed += po.pack()
-
     assert len(packed) == len(self)
+
+    if po:
+      packed += of.ofp_barrier_request().pack()
+      packed += po.pack()
 
     return packed
 
